@@ -9,6 +9,11 @@ Case grammar (see harness/C05.cpp, ocaml/C05_driver.ml); a matrix is a table `ro
       updates  add B (+=) | sub B (-=) | set i j v | swap i j | assignm B (=) | assign r c v | resize r c | delrow i | delcol j
     output: per query `D x x'` / `F b b'` / `X M.. M..` = the object's answer and the answer of a new object built from the
     object's current entries; `U` per update.  A call that terminates the process makes the whole case EXIT.
+  hist m A_1 .. A_m k (obj step)_1 .. (obj step)_k   a call history on m objects (fixed storage each), calls interleaved, and NOTHING
+    else called in the process (no probe objects: state kept outside the objects - statics, address-keyed memos - stays as the
+    history left it).  Steps as in seq, plus  renew B (the object is destroyed and a new one constructed from B in the same
+    storage) | copyinvertible | copyinverse (the query on a copy).  Output: `D x` / `F b` / `X M..` / `U`; the reference is the
+    model (mrun) and the clauses evaluated on the entries the object has at that call.
 The reference in S4 is exact rational arithmetic (fractions.Fraction) on the double-valued input, normalised by the power of two
 of its largest entry so that every clause is evaluated the same way at every scale (entries * 2^k, |k| <= 900).
 """
@@ -29,7 +34,7 @@ DET_SLACK = 64 * EPS
 #   ||X - M^-1||_F <= C_INV*n*kappa*eps*||M^-1||_F,  ||X*M - 1||_F <= C_INV*n*kappa*eps,  ||M*X - 1||_F <= C_INV*n*kappa^2*eps.
 C_INV = 64.0
 RULE = ("one case = one call of Determinant / Invertible / Inverse (or a determinant law on two calls, or a call history of 3..12 calls on "
-        "one object); non-trivial = the matrix has a zero or tiny (< 1e-8*||M||^k for the k-th) leading principal minor, or a condition "
+        "one object, or interleaved on up to three objects); non-trivial = the matrix has a zero or tiny (< 1e-8*||M||^k for the k-th) leading principal minor, or a condition "
         "number above 1e4, or is non-square / exactly singular (guard exercised), or its determinant leaves the normal double range, or "
         "the case is a call history; distinct by case text")
 LEVEL_TEXT = ("Theorems (Coq/MathComp, every size, every field): the model's Laplace determinant is the determinant (\\det), hence multiplicative, "
@@ -228,6 +233,98 @@ def rot(rng, n):
     return Q
 
 
+def gen_growth(rng, n, ratio=None, plain=False):
+    """the matrices on which the CHOICE of the pivot row decides the accuracy (Wilkinson's growth-factor shape): entries of
+    magnitude ~1 and equal sign below the diagonal, a last column of the opposite sign, and a diagonal that is r times the
+    largest candidate below it, r on a ladder from 1 down to 1e-16 (and just above / below each rung).  With the largest
+    candidate as pivot all multipliers are <= 1 and the elements grow by at most 2 per step; keeping a diagonal entry of
+    relative size r compounds multipliers 1/r over the n-1 steps.  Entries are not dyadic (no exact arithmetic).
+    ratio = the rung for all columns (default: random, one for all columns or one per column); plain = only the shape itself,
+    else variants too: the transpose, rows / columns with flipped signs, a sparse fill above the diagonal."""
+    sg = rng.choice([-1.0, 1.0]); f = 10 ** rng.uniform(-2, 2)
+    jit = lambda: 1 + rng.choice([1e-4, 1e-3, 1e-2]) * rng.uniform(-1, 1)
+    common = ratio if ratio is not None else rng.choice(PIVOT_RATIOS) if rng.random() < 0.6 else None
+    fill = 0.0 if plain else rng.choice([0.0, 0.0, 0.01, 0.3])
+    A = [[0.0] * n for _ in range(n)]
+    for i in range(n):
+        for j in range(n):
+            if j < i: A[i][j] = -sg * jit()
+            elif j == n - 1 and i < n - 1: A[i][j] = sg * jit() * (1.0 if plain else rng.choice([1.0, 1.0, rng.uniform(0.3, 1)]))
+            elif j > i and rng.random() < 0.5: A[i][j] = fill * rng.uniform(-1, 1)
+    for i in range(n):
+        r = (common if common is not None else rng.choice(PIVOT_RATIOS)) * (1 + rng.choice([0.0, 1e-3, -1e-3, 1e-2, -1e-2, 0.05]) * rng.random())
+        below = max([abs(A[k][i]) for k in range(i + 1, n)] or [1.0])
+        A[i][i] = sg * (1.0 if plain else rng.choice([1.0, 1.0, 1.0, -1.0])) * r * below
+    w = 1.0 if plain else rng.random()
+    if w < 0.25: A = [[A[j][i] for j in range(n)] for i in range(n)]
+    elif w < 0.4:
+        rs = [rng.choice([-1.0, 1.0]) for _ in range(n)]; cs_ = [rng.choice([-1.0, 1.0]) for _ in range(n)]
+        A = [[rs[i] * A[i][j] * cs_[j] for j in range(n)] for i in range(n)]
+    return [[f * x for x in row] for row in A]
+
+
+def laplacian(rng, k):
+    """the Laplacian of a connected graph on k >= 2 vertices (unit weights, a few double edges), rows / columns optionally
+    sign-flipped together: exactly singular (row sums vanish), symmetric, every row weakly diagonally dominant WITH EQUALITY"""
+    while True:
+        W = [[0.0] * k for _ in range(k)]
+        for v in range(1, k):
+            u = rng.randrange(v); W[u][v] = W[v][u] = float(rng.choice([1, 1, 1, 2]))
+        for _ in range(rng.randint(0, k)):
+            u, v = rng.sample(range(k), 2)
+            if W[u][v] == 0: W[u][v] = W[v][u] = 1.0
+        L = [[(sum(W[i]) if i == j else -W[i][j]) for j in range(k)] for i in range(k)]
+        if small_int(L): break
+    if rng.random() < 0.3:
+        d = [rng.choice([-1.0, 1.0]) for _ in range(k)]
+        L = [[d[i] * L[i][j] * d[j] + 0.0 for j in range(k)] for i in range(k)]
+    return L
+
+
+def gen_block(rng, n):
+    """reducible matrices: the direct sum of 2..3 blocks of small integers - singular ones with exact ties (graph Laplacians,
+    constant +-a blocks, a zero) and regular ones (strictly diagonally dominant, diagonal, dense, signed permutations) - optionally
+    coupled one way (block triangular) and with rows and columns permuted together.  Theorems about 'dominant' or 'generic'
+    matrices that need irreducibility, and shortcuts that look at rows or blocks separately, go wrong here and nowhere else"""
+    if n == 1: return [[float(rng.randint(-3, 3))]]
+    parts = []; left = n
+    while left > 0:
+        k = left if len(parts) == 2 else rng.randint(1, left)
+        parts.append(k); left -= k
+    rng.shuffle(parts)
+    def block(k):
+        w = rng.choice(["laplacian", "laplacian", "const", "dominant", "dominant", "diag", "dense", "perm"])
+        if k == 1: return [[float(rng.choice([0, 1, 2, 3, 4, -2, -3]))]]
+        if w == "laplacian": return laplacian(rng, k)
+        if w == "const":          # a * d d^T with d = +-1: rank one, all entries of equal magnitude
+            a = float(rng.randint(1, 3)); d = [rng.choice([-1.0, 1.0]) for _ in range(k)]
+            return [[a * d[i] * d[j] for j in range(k)] for i in range(k)]
+        if w == "dominant":
+            B = [[float(rng.randint(-1, 1)) for _ in range(k)] for _ in range(k)]
+            for i in range(k): B[i][i] = rng.choice([-1.0, 1.0]) * (sum(abs(B[i][j]) for j in range(k) if j != i) + rng.randint(1, 2))
+            return B
+        if w == "diag": return [[(float(rng.choice([1, 2, 3, -1, -4])) if i == j else 0.0) for j in range(k)] for i in range(k)]
+        if w == "perm": return gen_matrix(rng, k, "signed-perm")
+        return [[float(rng.randint(-3, 3)) for _ in range(k)] for _ in range(k)]
+    A = [[0.0] * n for _ in range(n)]; off = 0; spans = []
+    for k in parts:
+        B = block(k)
+        for i in range(k):
+            for j in range(k): A[off + i][off + j] = B[i][j]
+        spans.append((off, off + k)); off += k
+    if rng.random() < 0.35:          # one-way coupling: rows of a later block get entries in the columns of an earlier one, or the reverse
+        lower = rng.random() < 0.5
+        for a in range(len(spans)):
+            for b in range(a + 1, len(spans)):
+                for i in range(*spans[b if lower else a]):
+                    for j in range(*spans[a if lower else b]):
+                        if rng.random() < 0.4: A[i][j] = float(rng.choice([-1, 1, 2]))
+    if rng.random() < 0.5:
+        p = list(range(n)); rng.shuffle(p)
+        A = [[A[p[i]][p[j]] for j in range(n)] for i in range(n)]
+    return A
+
+
 def gen_matrix(rng, n, kind):
     U = lambda: rng.choice([-1, 1]) * rng.uniform(0.1, 1) * 10 ** rng.uniform(-1, 1)
     I = lambda: float(rng.randint(-5, 5))
@@ -350,34 +447,9 @@ def gen_matrix(rng, n, kind):
         d1 = [10 ** (-g1 * i / max(1, n - 1)) for i in range(n)]; d2 = [10 ** (-g2 * i / max(1, n - 1)) for i in range(n)]
         rng.shuffle(d1); rng.shuffle(d2)
         return [[d1[i] * Q[i][j] * d2[j] for j in range(n)] for i in range(n)]
-    if kind == "growth":
-        # the matrices on which the CHOICE of the pivot row decides the accuracy (Wilkinson's growth-factor shape): entries of
-        # magnitude ~1 and equal sign below the diagonal, a last column of the opposite sign, and a diagonal that is r times
-        # the largest candidate below it, r on a ladder from 1 down to 1e-16 (and just above / below each rung).  With the
-        # largest candidate as pivot all multipliers are <= 1 and the elements grow by at most 2 per step; keeping a diagonal
-        # entry of relative size r compounds multipliers 1/r over the n-1 steps.  Entries are not dyadic (no exact arithmetic).
-        # Variants: one r for all columns or one per column, the transpose, rows / columns with flipped signs, a sparse fill
-        # above the diagonal, an overall factor.
-        sg = rng.choice([-1.0, 1.0]); f = 10 ** rng.uniform(-2, 2)
-        jit = lambda: 1 + rng.choice([1e-4, 1e-3, 1e-2]) * rng.uniform(-1, 1)
-        common = rng.choice(PIVOT_RATIOS) if rng.random() < 0.6 else None
-        fill = rng.choice([0.0, 0.0, 0.01, 0.3])
-        A = [[0.0] * n for _ in range(n)]
-        for i in range(n):
-            for j in range(n):
-                if j < i: A[i][j] = -sg * jit()
-                elif j == n - 1 and i < n - 1: A[i][j] = sg * jit() * rng.choice([1.0, 1.0, rng.uniform(0.3, 1)])
-                elif j > i and rng.random() < 0.5: A[i][j] = fill * rng.uniform(-1, 1)
-        for i in range(n):
-            r = (common if common is not None else rng.choice(PIVOT_RATIOS)) * (1 + rng.choice([0.0, 1e-3, -1e-3, 1e-2, -1e-2, 0.05]) * rng.random())
-            below = max([abs(A[k][i]) for k in range(i + 1, n)] or [1.0])
-            A[i][i] = sg * rng.choice([1.0, 1.0, 1.0, -1.0]) * r * below
-        w = rng.random()
-        if w < 0.25: A = [[A[j][i] for j in range(n)] for i in range(n)]
-        elif w < 0.4:
-            rs = [rng.choice([-1.0, 1.0]) for _ in range(n)]; cs_ = [rng.choice([-1.0, 1.0]) for _ in range(n)]
-            A = [[rs[i] * A[i][j] * cs_[j] for j in range(n)] for i in range(n)]
-        return [[f * x for x in row] for row in A]
+    if kind == "growth": return gen_growth(rng, n)
+    if kind == "block": return gen_block(rng, n)
+    if kind == "laplacian": return laplacian(rng, n) if n >= 2 else [[0.0]]
     if kind == "hilbert":
         m = min(n, 6); s = rng.randint(1, 3)
         return [[1.0 / (i + j + s) for j in range(m)] for i in range(m)]
@@ -392,7 +464,7 @@ PIVOT_RATIOS = [1.0, 0.99, 0.9, 0.75, 0.6, 0.5, 0.4, 0.3, 0.25, 0.2, 0.15, 0.125
                 1e-8, 1e-10, 1e-13, 1e-16]
 KINDS = ["dense", "dense", "dense-int", "perm", "signed-perm", "scaled-perm", "zero-minor", "zero-minor", "tiny-minor", "upper", "lower",
          "tri-int", "diag", "symmetric", "rank-deficient", "rank-deficient", "rank-deficient-combo", "rank-deficient-real", "rank-deficient-real", "near-singular",
-         "graded", "graded", "graded", "hilbert", "vandermonde"]
+         "graded", "graded", "graded", "hilbert", "vandermonde", "block", "block", "laplacian"]
 # the families that are also run at extreme scales (entries times 2^k): the property does not depend on the unit of the entries
 SCALED_KINDS = ["dense", "dense-int", "signed-perm", "scaled-perm", "diag", "symmetric", "upper", "zero-minor", "graded", "rank-deficient",
                 "rank-deficient-real"]
@@ -603,8 +675,9 @@ class Obj:
         made equal to T in place, asked again, made regular again in place, ...: whatever an implementation remembers from
         the answer for the earlier entries is wrong for the new ones.  Only the last call may be entitled to terminate."""
         rng = s.rng
-        reg_q = ["invertible", "invertible", "inverse", "orthogonal", "det", "copydet", "transdet"] + (["copyinvertible", "copyinverse"] if s.pure else [])
-        sing_q = ["inverse", "inverse", "inverse", "invertible", "det", "orthogonal"] + (["copyinverse", "copyinvertible"] if s.pure else [])
+        # the three functions of the property carry the weight, before and after the change
+        reg_q = ["invertible"] * 3 + ["inverse"] * 2 + ["det"] * 2 + ["orthogonal", "copydet", "transdet"] + (["copyinvertible", "copyinverse"] if s.pure else [])
+        sing_q = ["inverse"] * 4 + ["invertible"] * 2 + ["det", "orthogonal"] + (["copyinverse", "copyinvertible"] if s.pure else [])
         for f in range(flips):
             for _ in range(rng.choice([1, 1, 2])): s.push(s.query(reg_q))
             for st in s.route_to(T): s.push(st)
@@ -672,7 +745,7 @@ def gen_seq(rng, n, kind):
     return seq_case(o, tags)
 
 
-SEQ_KINDS = ["dense", "dense-int", "dense-int", "symmetric", "upper", "signed-perm", "rank-deficient", "zero-minor", "graded"]
+SEQ_KINDS = ["dense", "dense-int", "dense-int", "symmetric", "upper", "signed-perm", "rank-deficient", "zero-minor", "graded", "block"]
 
 
 def gen_hist(rng, n):
@@ -753,14 +826,23 @@ def generate(rng, tier):
     for n in range(1, 8):
         for _ in range((100 if big else 14) * (2 if 3 <= n <= 5 else 1)):
             cs.append(gen_hist(rng, n))
-            cs.append(gen_flip(rng, n, pure=True))
+            for _ in range(2): cs.append(gen_flip(rng, n, pure=True))
             if rng.random() < 0.5: cs.append(gen_flip(rng, n, pure=False))
+    # reducible matrices with exact ties (singular and regular), every size
+    for n in range(2, 8):
+        for _ in range(40 if big else 8):
+            A = gen_matrix(rng, n, "block")
+            cs.append(Case(f"invertible {mtab(A)}", ("invertible", "block", f"n={n}"), tol=det_tol(A)))
+            cs.append(inv_case(A, "block"))
     # growth-factor shapes: the accuracy clause where it depends on the pivot choice; the larger sizes carry the weight
     for n in range(2, 8):
         for _ in range((12 if big else 2) * (n - 1) * (3 if n >= 6 else 1)):
             A = gen_matrix(rng, n, "growth")
             cs.append(inv_case(A, "growth"))
             if rng.random() < 0.2: cs.append(Case(f"det {mtab(A)}", ("det", "growth", f"n={n}"), tol=det_tol(A)))
+    for n in ((4, 5, 6, 7) if big else (6, 7)):          # the whole ladder, rung by rung, at the sizes where the growth compounds
+        for r in PIVOT_RATIOS:
+            for _ in range(3 if big else 1): cs.append(inv_case(gen_growth(rng, n, ratio=r, plain=True), "growth", (f"ratio={r:g}",)))
     # the witnesses of the defects fixed earlier, and hand-picked pivoting situations
     for A in ([[0.0, 1.0], [1.0, 0.0]], [[1e-20, 1.0], [1.0, 1.0]], [[0.0, 0.0, 1.0], [0.0, 1.0, 0.0], [1.0, 0.0, 0.0]],
               [[1.0, 2.0, 3.0], [2.0, 4.0, 6.0], [1.0, 0.0, 1.0]], [[1.0, 1.0], [1.0, 1.0]], [[0.0]], [[5.0]], [[-0.0]],
